@@ -37,7 +37,16 @@ def pool(rng):
             except Exception:
                 continue
             p["hw%d" % len(p)] = sp["yaml"]
+    # twins: the same tensor names and textually identical accesses, declared differently (a result keyed by tensor name or by
+    # access text instead of by specification would leak from one to the other)
+    conv = "einsum:\n  declaration:\n    I: [%s]\n    F: [R, S]\n    O: [P, Q]\n  expressions:\n    - O[p, q] = I[p + r, q + s] * F[r, s]\n"
+    p["convHW"] = conv % "H, W" + "mapping:\n  loop-order:\n    O: [P, Q, R, S]\n"
+    p["convWH"] = conv % "W, H" + "mapping:\n  loop-order:\n    O: [P, Q, R, S]\n"
+    p["gemmT"] = p["gemm"].replace("A: [K, M]", "A: [M, K]")
     return p
+
+
+TWINS = [("convHW", "convWH"), ("gemm", "gemmT")]
 
 
 def deep(o, seen=None, depth=0):
@@ -93,6 +102,28 @@ def replay(hist, specs):
     return evs
 
 
+def fresh_refs(specs):
+    """What a fresh interpreter produces for each specification alone: one subprocess per specification."""
+    import subprocess
+    import sys
+    from concurrent.futures import ThreadPoolExecutor
+    from common import REPO, ncores
+    code = ("import sys, json; sys.path.insert(0, %r); sys.path.insert(0, %r); import common, sessionpipe; "
+            "y = sys.stdin.read(); print('REF' + json.dumps(sessionpipe.replay([{'act': 'parse', 'spec': 's'}, {'act': 'compile', 'spec': 's'}], {'s': y})))"
+            % (REPO, os.path.dirname(os.path.abspath(__file__))))
+
+    def one(name):
+        r = subprocess.run([sys.executable, "-c", code], input=specs[name], capture_output=True, text=True, timeout=600)
+        line = [l for l in r.stdout.splitlines() if l.startswith("REF")]
+        if r.returncode != 0 or not line:
+            raise MachineryError("fresh interpreter failed for %s: %s" % (name, r.stderr[-300:]))
+        evs = json.loads(line[-1][3:])
+        return {"act": "ref", "spec": name, "objs": "-", "pre": "-", "post": evs[0]["post"], "out": evs[1]["out"]}
+
+    with ThreadPoolExecutor(min(len(specs), ncores())) as ex:
+        return list(ex.map(one, list(specs)))
+
+
 def histories_from_tlc(wd, names, length, simulate=None, seed=0):
     cfg = MC_CFG % (", ".join('"%s"' % n for n in names), length)
     if simulate:
@@ -108,16 +139,18 @@ def histories_from_tlc(wd, names, length, simulate=None, seed=0):
     return list(hs.values()), stats
 
 
-def validate(traces, wd, report, what):
+def validate(traces, wd, report, what, every=False):
+    """rejected: trace id -> (event index, clause) of its first rejected event (every=True: the list of all of them)."""
     bf = os.path.join(wd, "session_%s.json" % what)
     json.dump({"traces": traces}, open(bf, "w"))
     lines, stats = tlc.run("SessionTrace", TRACE_CFG, wd, env={"SESSION_TRACES": bf}, workers=4, tag=what, timeout=900)
     report.add_tlc(stats, "trace validation " + what)
     if stats["errors"]:
         raise MachineryError("SessionTrace failed: " + stats["errors"][0][:300])
-    rejected = {}
+    allrej = {}
     for s in tlc.printed(lines, "SESSION|"):
         _, tid, l, why = s.split("|", 3)
-        rejected.setdefault(int(tid), (int(l), why))
+        allrej.setdefault(int(tid), set()).add((int(l), why))
+    rejected = {t: (sorted(v) if every else min(v)) for t, v in allrej.items()}
     accepted = {int(s.split("|")[1]) for s in tlc.printed(lines, "SESSIONOK|")}
     return rejected, accepted
